@@ -369,6 +369,26 @@ Theorem udp_answer_within_timeout :
 Proof. exact NetUdp.udp_answer_within_timeout. Qed.
 Print Assumptions udp_answer_within_timeout.
 
+(* ---------------- octet level, for the parser of the correspondence runs ---------------- *)
+(* `lookup tab` is the parser `run` uses: descriptions supplied by the harness, each checked against
+   its own wire string (header length, id and flags octets).  Whatever table is supplied, the
+   message returned starts on the wire with the query's id and has QR set *)
+Theorem udp_answer_on_the_wire :
+  forall tab q qwire where_ timeout af o sevs evs now i r wire t from rest,
+  udp (lookup tab) q qwire where_ timeout af o sevs evs now = (i, Ok (r, wire, t, from, rest)) ->
+  exists b0 b1 b2 b3 tl, wire = b0 :: b1 :: b2 :: b3 :: tl /\
+    b0 * 256 + b1 = m_id q /\ Z.land (b2 * 256 + b3) fQR <> 0 /\ (12 <= length wire)%nat.
+Proof. exact NetUdp.udp_answer_on_the_wire. Qed.
+Print Assumptions udp_answer_on_the_wire.
+
+Theorem tcp_answer_on_the_wire :
+  forall tab q qwire timeout it wevs stream revs now m wire t sent sk,
+  tcp (lookup tab) q qwire timeout it wevs stream revs now = Ok (m, wire, t, sent, sk) ->
+  exists b0 b1 b2 b3 tl, wire = b0 :: b1 :: b2 :: b3 :: tl /\
+    b0 * 256 + b1 = m_id q /\ Z.land (b2 * 256 + b3) fQR <> 0 /\ (12 <= length wire)%nat.
+Proof. exact NetStream.tcp_answer_on_the_wire. Qed.
+Print Assumptions tcp_answer_on_the_wire.
+
 (* ---------------- non-vacuity ---------------- *)
 
 Module Ex.
